@@ -180,23 +180,55 @@ func run(c Case) (pbt.Outcome, error) {
 		lastUpdEnd := -1
 		type passInfo struct{ start, end int }
 		open := map[string]int{}
+		openNow := map[string]int{} // passes begun and not ended yet
+		var updStart, updEnd []int  // log positions of this gauge's updates (its updater is one thread: in order)
+		prevDelivery, prevPassStart := -1, -1
 		var passes []passInfo
 		for i := range events {
 			e := events[i]
 			switch {
 			case e.Kind == rec.KMark && strings.HasPrefix(e.Mark, "upd-start "+name+" "):
 				started++
+				updStart = append(updStart, e.Seq)
 			case e.Kind == rec.KMark && strings.HasPrefix(e.Mark, "upd-end "+name+" "):
 				ended++
+				updEnd = append(updEnd, e.Seq)
 				if ended == len(vs) {
 					lastUpdEnd = e.Seq
 				}
 			case e.Kind == rec.KMark && strings.HasPrefix(e.Mark, "pass-start "):
 				open[strings.TrimPrefix(e.Mark, "pass-start ")] = e.Seq
+				openNow[strings.TrimPrefix(e.Mark, "pass-start ")] = e.Seq
 			case e.Kind == rec.KMark && strings.HasPrefix(e.Mark, "pass-end "):
 				k := strings.TrimPrefix(e.Mark, "pass-end ")
 				passes = append(passes, passInfo{open[k], e.Seq})
+				delete(openNow, k)
 			case e.Kind == rec.KGauge && e.Name == name:
+				// "a gauge that has not been updated since it was last delivered is not delivered again":
+				// the previous delivery was made by a pass that began no earlier than the earliest pass
+				// open at that moment; an update that set the flag anew ended after that and began before
+				// this delivery. No such update: a re-delivery.
+				if prevDelivery >= 0 {
+					fresh := false
+					for ui := range updStart {
+						end := int(^uint(0) >> 1)
+						if ui < len(updEnd) {
+							end = updEnd[ui]
+						}
+						if end > prevPassStart && updStart[ui] < e.Seq {
+							fresh = true
+						}
+					}
+					if !fresh {
+						errs.Addf("%s: delivered again at log position %d (%v) although no Update ran between the pass of the previous delivery (log %d, pass began at or after log %d) and this one", name, e.Seq, e.F, prevDelivery, prevPassStart)
+					}
+				}
+				prevDelivery, prevPassStart = e.Seq, e.Seq
+				for _, st := range openNow {
+					if st < prevPassStart {
+						prevPassStart = st
+					}
+				}
 				deliveries++
 				if deliveries > started {
 					errs.Addf("%s: delivery #%d at log position %d but only %d updates had started", name, deliveries, e.Seq, started)
@@ -300,7 +332,7 @@ func describe(e *rec.Event) string {
 func TestC02(t *testing.T) {
 	pbt.Main(t, pbt.Prop[Case]{
 		ID: "C02", Name: "sched",
-		Rule: "cooperative-scheduler mode: rapid generates 1..2 gauges each with one updater thread (1..6 values from hostile float64 bit patterns: NaN payloads, +-Inf, -0, subnormals, raw bits), 1..3 reporter threads x 1..3 modelled ticker passes, plain/cached, in a quarter of the cases the updaters' handles obtained through another spelling of the root (Tagged(nil), Tagged({}), SubScope(\"\")) under 1..64 registry shards, AND the schedule (<=120 choices at the yield points between the two stores of Update, between swap and load of the report, and at the reporter call, i.e. between load and delivery). Then a sequential pass and a second one that must be silent. Oracle over the ordered log: every delivered value is bit-identical to a value whose Update had started; deliveries never outnumber started updates; the first pass starting after the last Update returned leaves the most recent delivered value equal to the last update, as does the end of the history; no re-delivery without update. Non-trivial: a preempted Update store/store, swap/load or load/deliver window. Distinct: FNV-64 of program+schedule JSON.",
+		Rule: "cooperative-scheduler mode: rapid generates 1..2 gauges each with one updater thread (1..6 values from hostile float64 bit patterns: NaN payloads, +-Inf, -0, subnormals, raw bits), 1..3 reporter threads x 1..3 modelled ticker passes, plain/cached, in a quarter of the cases the updaters' handles obtained through another spelling of the root (Tagged(nil), Tagged({}), SubScope(\"\")) under 1..64 registry shards, AND the schedule (<=120 choices at the yield points between the two stores of Update, between swap and load of the report, and at the reporter call, i.e. between load and delivery). Then a sequential pass and a second one that must be silent. Oracle over the ordered log: every delivered value is bit-identical to a value whose Update had started; deliveries never outnumber started updates; the first pass starting after the last Update returned leaves the most recent delivered value equal to the last update, as does the end of the history; no re-delivery without update (neither in the final silent pass nor in the middle of the history: between two deliveries an Update must have run). Non-trivial: a preempted Update store/store, swap/load or load/deliver window. Distinct: FNV-64 of program+schedule JSON.",
 		Gen:  gen, Run: run, Retries: 10,
 	})
 }
